@@ -43,8 +43,8 @@ def rule_family(tier):
     out = []
     for n in range(1, maxn + 1):
         for t in trees(n, genes):
-            if tier != "quick" and n == 4 and len(ref_gpr.genes(t)) < 3:
-                continue  # thorough 4-leaf trees: keep those using >= 3 distinct genes
+            if tier != "quick" and n == 4 and len(ref_gpr.genes(t)) < 4:
+                continue  # thorough 4-leaf trees: keep those using 4 distinct genes
             out.append(t)
     return out
 
